@@ -329,6 +329,15 @@ def run(tier, seed, replay=None):
             if obs.abort and obs.abort["fired"]:
                 judge(chk, case, obs, None, signal.SIGINT)
                 fired += 1
+    # a signal that arrives while a launch FAILS, with another task in flight and no later launch: the abort noted during the
+    # launch must still be raised when the launch block is left by the error (seed C16/i)
+    fl_case = Case([T(2, [1, 2], "command"), T(2, [], "experiment", True), T(2, [], "experiment", True)], jobs=2, launch_fail=[2], picks=[0])
+    for sig in (signal.SIGINT, signal.SIGTERM):
+        obs = run_impl(fl_case, inject={"k": None, "at_failed_launch": True, "sig": sig})
+        chk.coverage["evaluations"] += 1
+        if obs.abort and obs.abort["fired"]:
+            judge(chk, fl_case, obs, None, sig)
+            fired += 1
     pts = chk.coverage.pop("_points", set())
     chk.coverage["distinct_nontrivial"] = len(pts)
     chk.coverage["traces_validated_against_impl"] = fired
